@@ -3,7 +3,7 @@
 From Coq Require Import List Arith NArith ZArith Bool String.
 From Coq.Strings Require Import Byte.
 From Peppi Require Import Base.Bytes Base.Outcome Gen.Funs Model.Ubjson Model.Start Model.Parse Model.Reader Model.Writer Model.Recorder
-  Proofs.FrameStep Proofs.TableFacts Proofs.ReadProof Proofs.WriteProof Proofs.Corollaries Proofs.C08Proof Proofs.Irregular Proofs.Permute Proofs.Irregular2 Proofs.IrregularCheck.
+  Proofs.FrameStep Proofs.TableFacts Proofs.ReadProof Proofs.WriteProof Proofs.Corollaries Proofs.C08Proof Proofs.Irregular Proofs.Permute Proofs.Irregular2 Proofs.IrregularCheck Gen.WriterRaw Proofs.WriterRawLayout.
 Import ListNotations.
 
 (* for the game g of EVERY well-formed replay (Game End and metadata present or missing): the written file is
@@ -88,6 +88,14 @@ Theorem C17_checked_class : forall r st x h,
                     (if h then Some (List.length (emit_irr r x)) else None), []).
 Proof. exact read_irregular_checked. Qed.
 
+(* "declared raw length computed from counts, not measured": the declared length of the writer model is the sum of the terms
+   regenerated from src/io/slippi/ser.rs PayloadSizes::raw_size on this run, over the counts of the regenerated frame_counts *)
+Theorem C17_raw_size_from_source : forall g sizes,
+  payload_sizes g = Ok sizes -> raw_size sizes g = raw_size_of_terms raw_size_terms sizes g.
+Proof. exact raw_size_of_payload_sizes_from_source. Qed.
+Theorem C17_frame_counts_from_source : forall fr, frame_counts fr = frame_counts_tbl frame_counts_fields fr.
+Proof. exact frame_counts_from_source. Qed.
+
 (* the canonical rendering is an instance (non-vacuity of wf_irreg) *)
 Theorem C17_irregular_nonvacuous : forall r st,
   wf_replay r = true -> game_start (r_start r) = ROk st ->
@@ -103,3 +111,5 @@ Print Assumptions C17_reordered_read.
 Print Assumptions C17_reordered_fixed_point.
 Print Assumptions C17_reordered_nonvacuous.
 Print Assumptions C17_unknown_events_dropped.
+Print Assumptions C17_raw_size_from_source.
+Print Assumptions C17_frame_counts_from_source.
